@@ -123,7 +123,11 @@ def symbolise_body(ctx, body, kind, tag="b", directors="free", planar=False, pla
         if ctx.sym:
             setattr(body, attr, arr)
         else:
-            cur[...] = arr
+            # the state array is RE-BOUND to a new array object in both modes (what PyElastica's finalize() does when it
+            # moves the state of every system into block memory): anything that cached a view of the old array is stale
+            new = np.array(cur, copy=True)
+            new[...] = arr
+            setattr(body, attr, new)
         state[attr] = getattr(body, attr)
 
     nn = n + 1 if kind == "rod" else 1
